@@ -35,7 +35,7 @@ func init() {
 		sc.Assumptions = simAssumptions
 		registry[sc.Prop] = func(run *harness.Run) int { return sim.RunSimCheck(run, sc) }
 	}
-	reg(&sim.SimCheck{Prop: "C01", Workload: "c01", Profile: withOpts(advProfile(merge(noBare, map[string]int{"equivocate": 12, "support": 25, "forgedNV": 12, "twistedNV": 12, "reblock": 25, "vcGames": 16}), 500, 2), func(p *sim.Profile) { p.CommErrors, p.CommitFailures = true, true }),
+	reg(&sim.SimCheck{Prop: "C01", Workload: "c01", Profile: withOpts(advProfile(merge(noBare, map[string]int{"equivocate": 12, "support": 25, "forgedNV": 12, "twistedNV": 12, "reblock": 25, "vcGames": 16, "viewFlood": 5}), 500, 2), func(p *sim.Profile) { p.CommErrors, p.CommitFailures = true, true }),
 		QuickCases: 10000, ThoroughCases: 150000,
 		NonTrivial: func(r *sim.Result) bool { return r.Forky && r.Commits > 0 },
 		Rule:       "random adversarial case (committee, weights, leader order, Byzantine set <= f, schedule, attack strategies) from (VERIF_SEED, workload, index); non-trivial = at least two different proposals were on the wire at one height and some correct node committed; distinct = distinct schedule hash",
@@ -100,7 +100,7 @@ func init() {
 			cfs, cev, cinc := rtPart(run, "commitsync", 32, 1200, map[string]int{"C17 rounds overtaken by a sync while being set up": 15})
 			return append(fs, cfs...), map[string]interface{}{"rt_stress": ev, "rt_commitsync": cev}, append(inc, cinc...)
 		}})
-	reg(&sim.SimCheck{Prop: "C09", Workload: "c09", Profile: withOpts(advProfile(merge(map[string]int{"barePP": 5}, map[string]int{"vcGames": 25, "support": 20, "equivocate": 8}), 600, 2), func(p *sim.Profile) { p.CommErrors, p.CommitFailures = true, true }),
+	reg(&sim.SimCheck{Prop: "C09", Workload: "c09", Profile: withOpts(advProfile(merge(map[string]int{"barePP": 5}, map[string]int{"vcGames": 25, "support": 20, "equivocate": 8, "viewFlood": 4}), 600, 2), func(p *sim.Profile) { p.CommErrors, p.CommitFailures = true, true }),
 		QuickCases: 5000, ThoroughCases: 100000,
 		NonTrivial: func(r *sim.Result) bool {
 			return r.Stats["C09 locked view changes judged"] > 0 || r.Stats["C09 new views re-proposing a lock"] > 0
@@ -109,7 +109,7 @@ func init() {
 		Floors: map[string]int{"C09 locked view changes judged": 2000, "C09 new views judged": 1000, "C09 new views re-proposing a lock": 200},
 		Judged: []string{"C09 locked view changes judged", "C09 new views judged", "C09 new views re-proposing a lock"},
 		Extra:  farViews("C09", 9)})
-	reg(&sim.SimCheck{Prop: "C10", Workload: "c10", Profile: withOpts(advProfile(merge(map[string]int{"barePP": 5}, map[string]int{"equivocate": 20, "support": 25, "mutate": 20}), 500, 2), func(p *sim.Profile) {
+	reg(&sim.SimCheck{Prop: "C10", Workload: "c10", Profile: withOpts(advProfile(merge(map[string]int{"barePP": 5}, map[string]int{"equivocate": 20, "support": 25, "mutate": 20, "viewFlood": 3}), 600, 3), func(p *sim.Profile) {
 		// (in a third of the cases the consumers' validators do not object to a proposal without a block)
 		p.CommErrors, p.CommitFailures, p.LenientValidators = true, true, true
 	}),
@@ -118,7 +118,7 @@ func init() {
 		Rule:       "adversarial cases with conflicting proposals, duplicated and re-ordered deliveries; every message a correct node sends is judged (single-valued signatures per (h,v), phase order, view order); non-trivial = conflicting proposals were on the wire and a COMMIT of a correct node was judged",
 		Floors:     map[string]int{"C10 commits judged": 2000, "C10 prepares judged": 4000, "C10 view changes judged": 4000},
 		Judged:     []string{"C10 proposals judged", "C10 prepares judged", "C10 commits judged", "C10 view changes judged", "C10 commits by commit quorum"}})
-	reg(&sim.SimCheck{Prop: "C11", Workload: "c11", Profile: withOpts(advProfile(merge(map[string]int{"barePP": 5}, map[string]int{"vcGames": 25, "outsider": 12, "support": 20, "mutate": 20, "hugeView": 6}), 600, 2), func(p *sim.Profile) { p.CommitteeErrors, p.CommitFailures = true, true }),
+	reg(&sim.SimCheck{Prop: "C11", Workload: "c11", Profile: withOpts(advProfile(merge(map[string]int{"barePP": 5}, map[string]int{"vcGames": 25, "outsider": 12, "support": 20, "mutate": 20, "hugeView": 6, "viewFlood": 5}), 600, 2), func(p *sim.Profile) { p.CommitteeErrors, p.CommitFailures = true, true }),
 		QuickCases: 5000, ThoroughCases: 100000,
 		NonTrivial: func(r *sim.Result) bool {
 			return r.Stats["C11 judged NEW_VIEW"] > 0 && r.Stats["delivered adversarial"] > 0
@@ -165,7 +165,7 @@ func init() {
 			return fs, ev, append(inc, cinc...)
 		}})
 	reg(&sim.SimCheck{Prop: "C12", Workload: "c12", Profile: func(th bool) *sim.Profile {
-		p := advProfile(merge(noBare, map[string]int{"garbage": 30, "hugeView": 20, "mutate": 50, "vcGames": 10, "crossInstance": 6, "support": 10, "badBlock": 6, "corruptNested": 25, "wrapLen": 12}), 350, 2)(th)
+		p := advProfile(merge(noBare, map[string]int{"garbage": 30, "hugeView": 20, "mutate": 50, "vcGames": 10, "crossInstance": 6, "support": 10, "badBlock": 6, "corruptNested": 25, "wrapLen": 12, "viewFlood": 4}), 350, 2)(th)
 		p.Tail, p.TailQuiet, p.TailProp, p.NoRejects = true, true, "C12", true
 		p.LenientValidators = true
 		p.NilBlocks = true // a correct leader whose factory has nothing to propose (no block, live context): the round must survive it
@@ -207,7 +207,7 @@ func init() {
 			return append(append(append(fs, fs2...), fs3...), fs4...), ev, append(append(append(inc, inc2...), inc3...), inc4...)
 		}})
 	reg(&sim.SimCheck{Prop: "C13", Workload: "c13", Profile: func(th bool) *sim.Profile {
-		p := advProfile(merge(noBare, map[string]int{"support": 20, "mutate": 15, "badBlock": 14}), 500, 3)(th)
+		p := advProfile(merge(noBare, map[string]int{"support": 20, "mutate": 15, "badBlock": 14, "vcGames": 14, "twistedNV": 10}), 500, 3)(th)
 		p.CommitFailures, p.SplitHandoff, p.ReverseToLaggers = true, true, true
 		return p
 	},
